@@ -202,3 +202,22 @@ Theorem C01_bam_closed_loop_delivers : forall prio sa dp pf p t0 A0 B0,
                   :: map (fun k => tp21_dt sa addr_GLOBAL (dt_payload p (Z.of_nat k))) (seq 0 (npk (length p))).
 Proof. exact Net21Bam.bam_closed_loop_delivers. Qed.
 Print Assumptions C01_bam_closed_loop_delivers.
+
+From J1939P Require Net21Seq.
+
+(* T10.18 / T01.12: a HISTORY of transfers.  Any number of J1939-21 connection-mode transfers (any payloads of 9..1785 bytes, any
+   PGNs and priorities) run one after the other between two model nodes, each submitted when the network has come to rest:
+   there is a run in which ALL of them complete — after every one the nodes meet the premises of the closed-loop theorem
+   again (nothing pending, same configuration, same subscribers), so send_pgn is accepted again and the next one
+   delivers; B's subscribers have got every payload exactly once, in order, and the wire carries exactly the frames of
+   every transfer, in order.  (seq_reach: submit, run j steps, submit the next ...) *)
+Theorem C01_sequence_of_transfers_all_deliver : forall sa dest, 0 <= sa < 255 -> 0 <= dest < 255 ->
+  forall ms s, Forall Net21Seq.msg_ok ms -> Net21.qa s = [] -> Net21.qb s = [] -> 0 < Net21.clk s ->
+  Net21Seq.premA sa (Net21.na s) -> Net21Seq.premB dest (Net21.nb s) ->
+  exists s', Net21Seq.seq_reach sa dest s ms s' /\
+    Net21.qa s' = [] /\ Net21.qb s' = [] /\ Net21Seq.premA sa (Net21.na s') /\ Net21Seq.premB dest (Net21.nb s') /\
+    Net21.evb s' = Net21.evb s ++ concat (map (fun m => deliveries (Net21.nb s) 7 (Net21Seq.m_dp m * 65536 + Net21Seq.m_pf m * 256) sa dest
+                                                                  (Net21Seq.m_data m)) ms) /\
+    Net21.wab s' = Net21.wab s ++ concat (map (Net21Seq.wire_of sa dest (n_maxp (Net21.na s))) ms).
+Proof. exact Net21Seq.sequence_delivers. Qed.
+Print Assumptions C01_sequence_of_transfers_all_deliver.
